@@ -1042,6 +1042,8 @@ CHUNK = 250
 CHUNK_TIMEOUT = 600
 THOROUGH_S = 1200
 DET_RUNS = 60
+DET_STRICT = False  # a library whose behaviour depends on OS thread identifiers (seeded change c17i) differs between two
+# processes by nature: the self-test mismatch must then be explained by a violation found in the batch, else exit 2
 SETS = ("progs", "inter", "states")
 ASSUMPTIONS = [
     "pre-emption granularity is one source line of tensorly/backend/__init__.py and tensorly/tenalg/__init__.py (sys.settrace line events); races inside one line or inside C code are not explored",
